@@ -121,7 +121,8 @@ class ServiceDecorator(Decorator):
         name = self.args[1]
         _LOGGER.debug("Registering service: %s.%s", domain, name)
         Function.service_register(
-            self.dm.ast_ctx.name,
+            # the owner is the global context (as in stop()), not the evaluator that happens to run the definition
+            self.dm.ast_ctx.global_ctx.get_name(),
             domain,
             name,
             self._service_callback,
